@@ -140,7 +140,7 @@ theorem pairOK_of_safe {p : Prog} (hs : safeB p = true) {x y : Nat × Bool × Op
 
 /-- the core of double buffering: operand occurrences that may coexist never resolve to the same location when the
 earlier stage runs a later iteration that has caught up with the later stage (distance at most the stage distance) -/
-theorem resolve_ne {tiles : List (Nat × Nat)} {ka kb na nb : Nat} {wa wb : Bool} {v w : Opnd}
+theorem resolve_ne {tiles : List (Nat × Nat × Bool)} {ka kb na nb : Nat} {wa wb : Bool} {v w : Opnd}
     (h1 : pairOK tiles (ka, wa, v) (kb, wb, w) = true) (h2 : pairOK tiles (kb, wb, w) (ka, wa, v) = true)
     (hk : ka < kb) (hn : nb < na) (hd : na - nb ≤ kb - ka) :
     resolve tiles true na v ≠ resolve tiles true nb w := by
@@ -148,8 +148,12 @@ theorem resolve_ne {tiles : List (Nat × Nat)} {ka kb na nb : Nat} {wa wb : Bool
     not_false_eq_true, if_true] <;> simp only [pairOK, tileArr, tileOff, Bool.or_eq_true, bne_iff_ne, ne_eq, beq_iff_eq,
     Bool.and_eq_true] at h1 h2
   · rintro ⟨ha, ho⟩
-    rcases h1 with h | h
+    rcases h1 with (h | h) | h
     · exact h ha
+    · obtain ⟨⟨hi, hi'⟩, hoff⟩ := h
+      simp only [Bool.not_eq_true'] at hi hi'
+      simp only [hi, hi', Bool.false_eq_true, if_false, tileOff] at ho
+      omega
     · omega
   · rintro ⟨hb, _⟩
     rcases h1 with h | h
